@@ -35,7 +35,8 @@ MANIFEST = {
             "releasing the lock) and for the protocol with the source bound after the `with` block the negation is proved on a "
             "concrete schedule (the oracle's finer scheduler, with a yield point after every release, replays the latter against "
             "the code). Tie: differential run of model and real store on temp directories after every call, and an "
-            "instrumented lock/cache scheduler replaying every interleaving of two threads.",
+            "instrumented lock/cache scheduler replaying every interleaving of two threads."
+            " The file name of a document is regenerated from the source and proved to be sha256 of the identifier's UTF-8 bytes with nothing done to the identifier before (c14_document_name_is_hash_of_identifier).",
     "note": "partial: real preemption inside CPython bytecodes and WeakValueDictionary finalisation are assumed to respect the "
             "modelled atomicity (GIL + lock; gc at explicit steps); sha256 injective; document content abstracted to a version "
             "number in the histories (attribute equality: a separate rich-payload oracle over generated identifiables and the zoo "
